@@ -43,6 +43,148 @@ fn fw(out: &mut Vec<Field>, name: &str, off: usize, bytes: Vec<u8>, len: usize) 
     }
 }
 
+/// A CFF2 INDEX (32-bit count): (count, offSize, [start, end) of each object, end of the INDEX).
+fn cff2_index(d: &[u8], at: usize) -> Option<(usize, usize, Vec<(usize, usize)>, usize)> {
+    let count = be32(d, at)?;
+    if count == 0 {
+        return Some((0, 0, Vec::new(), at + 4));
+    }
+    let off_size = usize::from(*d.get(at + 4)?);
+    if !(1..=4).contains(&off_size) || count > 70000 {
+        return None;
+    }
+    let offs = at + 5;
+    let data = offs + (count + 1) * off_size - 1;
+    let rd = |i: usize| -> Option<usize> {
+        let b = d.get(offs + i * off_size..offs + (i + 1) * off_size)?;
+        Some(b.iter().fold(0usize, |a, &x| (a << 8) | usize::from(x)))
+    };
+    let mut objs = Vec::with_capacity(count);
+    let mut prev = rd(0)?;
+    for i in 1..=count {
+        let o = rd(i)?;
+        if o < prev {
+            return None;
+        }
+        objs.push((data + prev, data + o));
+        prev = o;
+    }
+    Some((count, off_size, objs, data + prev))
+}
+
+/// CharStrings, FDArray / Private DICT / local subroutines and the variation store of a CFF2 table.
+fn cff2_deep_fields(out: &mut Vec<Field>, d: &[u8], hs: usize, tl: usize, rng: &mut Rng) {
+    use crate::sfnt_check::cff_dict;
+    let n = d.len();
+    let Some(top) = d.get(hs..hs + tl) else { return };
+    let dict = cff_dict(top);
+    let find = |op: u16| dict.iter().find(|(o, _)| *o == op).and_then(|(_, v)| v.last().copied());
+    if let Some(cs_off) = find(17).filter(|o| *o > 0) {
+        let cs_off = cs_off as usize;
+        f(out, "CFF2.charstrings.count", cs_off, 4, n);
+        f(out, "CFF2.charstrings.offSize", cs_off + 4, 1, n);
+        if let Some((count, off_size, objs, _)) = cff2_index(d, cs_off) {
+            if count > 0 {
+                let k = pick_index(rng, count + 1);
+                let w = if off_size == 3 { 2 } else { off_size };
+                f(out, "CFF2.charstrings.offset[k]", cs_off + 5 + k * off_size + (off_size - w), w as u8, n);
+                let g = if rng.pct(70) { rng.usize_below(count.min(256)) } else { rng.usize_below(count) };
+                let (s, e) = objs[g];
+                if e > s {
+                    f(out, "CFF2.charstring.first", s, 1, n);
+                    f(out, "CFF2.charstring.last", e - 1, 1, n);
+                    f(out, "CFF2.charstring.byte", s + rng.usize_below(e - s), 1, n);
+                    // many operands before one path operator (CFF2 allows 513 stack entries)
+                    let ops: [u8; 10] = [5, 6, 7, 8, 24, 25, 26, 27, 30, 31];
+                    let nops = *rng.pick(&[47usize, 48, 49, 52, 96, 200, 512, 513, 514]);
+                    if e - s > nops + 4 {
+                        // `0 0 rmoveto` first: path operators before any moveto are rejected early
+                        let mut prog = vec![139u8, 139, 21];
+                        prog.extend(std::iter::repeat(139u8 + (rng.below(20) as u8)).take(nops));
+                        prog.push(ops[rng.usize_below(ops.len())]);
+                        fw(out, "CFF2.charstring.manyOperands", s, prog, n);
+                    }
+                    // blend with a count that does not match the operands present
+                    if e - s >= 8 {
+                        let nb = 139u8 + rng.below(8) as u8;
+                        fw(out, "CFF2.charstring.blend", s, vec![140, 141, 142, 143, 144, nb, 16, 21], n);
+                    }
+                    // vsindex beyond the variation store, then blend
+                    if e - s >= 6 {
+                        fw(out, "CFF2.charstring.vsindex", s, vec![139 + 50, 15, 140, 140, 16, 21], n);
+                    }
+                    if e - s >= 4 {
+                        let op = if rng.pct(50) { 10 } else { 29 };
+                        fw(out, "CFF2.charstring.callsubr", s, vec![[139u8, 32, 246][rng.usize_below(3)], op], n);
+                    }
+                }
+            }
+        }
+    }
+    if let Some(vs) = find(24).filter(|o| *o > 0) {
+        let vs = vs as usize;
+        f(out, "CFF2.vstore.length", vs, 2, n);
+        f(out, "CFF2.vstore.format", vs + 2, 2, n);
+        f(out, "CFF2.vstore.regionListOffset", vs + 4, 4, n);
+        f(out, "CFF2.vstore.dataCount", vs + 8, 2, n);
+        f(out, "CFF2.vstore.dataOffset0", vs + 10, 4, n);
+        if let Some(rl) = be32(d, vs + 4) {
+            f(out, "CFF2.vstore.axisCount", vs + 2 + rl, 2, n);
+            f(out, "CFF2.vstore.regionCount", vs + 2 + rl + 2, 2, n);
+        }
+        if let Some(d0) = be32(d, vs + 10) {
+            let a = vs + 2 + d0;
+            f(out, "CFF2.vstore.data0.itemCount", a, 2, n);
+            f(out, "CFF2.vstore.data0.wordDeltaCount", a + 2, 2, n);
+            f(out, "CFF2.vstore.data0.regionIndexCount", a + 4, 2, n);
+            f(out, "CFF2.vstore.data0.regionIndex0", a + 6, 2, n);
+        }
+    }
+    if let Some(fda) = find(0x0c24).filter(|o| *o > 0) {
+        let fda = fda as usize;
+        f(out, "CFF2.fdarray.count", fda, 4, n);
+        f(out, "CFF2.fdarray.offSize", fda + 4, 1, n);
+        if let Some((count, _, objs, _)) = cff2_index(d, fda) {
+            if let Some(&(s, e)) = objs.get(rng.usize_below(count.max(1))) {
+                if e > s {
+                    f(out, "CFF2.fontdict.byte", s + rng.usize_below(e - s), 1, n);
+                    let fd = cff_dict(&d[s..e]);
+                    if let Some((_, v)) = fd.iter().find(|(o, _)| *o == 18) {
+                        if let [size, off] = v[..] {
+                            let (size, off) = (size.max(0) as usize, off.max(0) as usize);
+                            if size > 0 && off + size <= n {
+                                f(out, "CFF2.private.byte", off + rng.usize_below(size), 1, n);
+                                let pd = cff_dict(&d[off..off + size]);
+                                if let Some(so) = pd.iter().find(|(o, _)| *o == 19).and_then(|(_, v)| v.last().copied()) {
+                                    let subrs = off + so.max(0) as usize;
+                                    f(out, "CFF2.localsubrs.count", subrs, 4, n);
+                                    f(out, "CFF2.localsubrs.offSize", subrs + 4, 1, n);
+                                    if let Some((c, _, sobjs, _)) = cff2_index(d, subrs) {
+                                        if let Some(&(a, b)) = sobjs.get(rng.usize_below(c.max(1))) {
+                                            if b > a {
+                                                f(out, "CFF2.localsubr.byte", a + rng.usize_below(b - a), 1, n);
+                                                if b - a >= 2 {
+                                                    fw(out, "CFF2.localsubr.recursive", a, vec![[139u8, 32, 140][rng.usize_below(3)], 10], n);
+                                                }
+                                            }
+                                        }
+                                    }
+                                }
+                            }
+                        }
+                    }
+                }
+            }
+        }
+    }
+    if let Some(fds) = find(0x0c25).filter(|o| *o > 0) {
+        let fds = fds as usize;
+        f(out, "CFF2.fdselect.format", fds, 1, n);
+        f(out, "CFF2.fdselect.nRanges", fds + 1, 2, n);
+        f(out, "CFF2.fdselect.range0.fd", fds + 5, 1, n);
+    }
+}
+
 /// CharStrings, charset, FDSelect, Private DICT and local subroutines of a CFF table.
 fn cff_deep_fields(out: &mut Vec<Field>, d: &[u8], rng: &mut Rng) {
     use crate::sfnt_check::{cff_dict, cff_index};
@@ -654,6 +796,7 @@ pub fn locate(tag: &str, d: &[u8], rng: &mut Rng) -> Vec<Field> {
             f(&mut out, "CFF2.topdict.byte", hs + k, 1, n);
             f(&mut out, "CFF2.gsubr.count", hs + tl, 4, n);
             f(&mut out, "CFF2.gsubr.offSize", hs + tl + 4, 1, n);
+            cff2_deep_fields(&mut out, d, hs, tl, rng);
         }
         "fvar" => {
             f(&mut out, "fvar.axesArrayOffset", 4, 2, n);
